@@ -1,4 +1,6 @@
 
+val xorb : bool -> bool -> bool
+
 val negb : bool -> bool
 
 type nat =
@@ -1410,6 +1412,8 @@ val parse_atom_symbol : str -> ((z * n option) * satom) option
 
 val alpha : (str * z) list -> satom -> z option
 
+val symbol_in_grammar : (str * z) list -> str -> bool
+
 type ringq = { q_l : nat; q_r : nat; q_order : z; q_lm : n option;
                q_rm : n option }
 
@@ -1451,3 +1455,69 @@ val slot_eqb : nslot -> nslot -> bool
 val list_eqb : ('a1 -> 'a1 -> bool) -> 'a1 list -> 'a1 list -> bool
 
 val smol_eqb : smol -> smol -> bool
+
+val atom_same : satom -> satom -> bool
+
+val find_slot : nslot list -> nat -> nslot option
+
+val order_ok : z -> z -> bool
+
+val row_same : nslot list -> nslot list -> bool
+
+val forall2b : ('a1 -> 'a2 -> bool) -> 'a1 list -> 'a2 list -> bool
+
+val same_molecule : smol -> smol -> bool
+
+val nbr_seq_i : nat -> satom -> nslot list -> nat option list
+
+val onat_eqb : nat option -> nat option -> bool
+
+val pos_of : nat option -> nat option list -> nat -> nat option
+
+val positions : nat option list -> nat option list -> nat list option
+
+val count_lt : nat -> nat list -> nat
+
+val inversions0 : nat list -> nat
+
+val perm_parity : nat option list -> nat option list -> bool option
+
+val tag_bit : str -> bool
+
+val chiral_same : nat -> satom -> satom -> nslot list -> nslot list -> bool
+
+val marks_same : nslot list -> nslot list -> bool
+
+val zip3 : 'a1 list -> 'a2 list -> 'a3 list -> (('a1 * 'a2) * 'a3) list
+
+val same_stereo : smol -> smol -> bool
+
+val target_valence : satom -> z option
+
+val sigma : nslot list -> z
+
+val aromatic_degree : nslot list -> nat
+
+val needs_pi : satom -> nslot list -> bool option
+
+val doubles_in_system : nslot list -> nslot list -> nat
+
+val kekule_atom_ok : satom -> nslot list -> nslot list -> bool
+
+val kekule_ok : smol -> smol -> bool
+
+val all_standard : smol -> bool
+
+val pi_graph : smol -> nat list list * bool list
+
+val first_free : bool list -> bool list -> nat -> nat option
+
+val has_pm_fuel : nat -> nat list list -> bool list -> bool list -> bool
+
+val has_kekule_structure : smol -> bool
+
+val violates : (str * z) list -> smol -> bool
+
+val graph_has_pm : nat list list -> bool
+
+val is_perfect_matching : nat list list -> nat option list -> bool
